@@ -90,6 +90,8 @@ def run(chk):
     chk.rule("R3", "every cast_compiled / Polars cast targets the node's own target_type (and strict where supported)")
     chk.rule("R4", "float->int casts are truncated explicitly on engines whose CAST rounds (PostgreSQL, DuckDB)")
 
+    chk.rule("R5", "tests of a source dtype against concrete types in cast compilation / validation are made on without_const(..) of it")
+
     ce, func, valid = fold_valid_casts(chk, m)
     exp, rows = documented_table(T)
     chk.floor("R1", "folded VALID_CASTS pairs", len(valid), 100)
@@ -242,3 +244,9 @@ def run(chk):
         chk.ob("R4", mod, f, f"{cls}.compile_cast truncates float -> int", ok,
                f"{cls} casts float to int without TRUNC: the engine rounds to nearest, the documented cast truncates toward zero")  # fmt: skip
     chk.trusted.append("engine knowledge table: PostgreSQL and DuckDB round on CAST(float AS int); SQLite, SQL Server, DB2 truncate")
+
+    # ---- R5 const-unwrapping discipline in everything that implements casts
+    from .. import constness
+
+    constness.run_rule(chk, "R5", m.sym, scope=("backend.", "tree.col_expr", "tree.types"), floor=4,
+                       only_funcs={"compile_cast", "cast_compiled", "is_valid_cast"})  # fmt: skip
